@@ -11,8 +11,8 @@
 
 namespace mp
 {
-enum Kind { EP, EP_DISCOVERED, PROMO_Q, UNDERPROMO, KNIGHT_PROMO, CASTLE, DISCOVERED, DOUBLE_CHECK, NKIND };
-static const char* const KNAME[NKIND] = {"en_passant", "en_passant_discovered", "promotion_queen", "underpromotion", "knight_promotion", "castling", "discovered_check", "double_check"};
+enum Kind { EP, EP_DISCOVERED, EP_THROUGH_CAPTURED_SQUARE, PROMO_Q, UNDERPROMO, KNIGHT_PROMO, CASTLE, DISCOVERED, DOUBLE_CHECK, NKIND };
+static const char* const KNAME[NKIND] = {"en_passant", "en_passant_discovered", "en_passant_line_through_captured_pawn", "promotion_queen", "underpromotion", "knight_promotion", "castling", "discovered_check", "double_check"};
 struct Entry
 {
     ref::Pos p;
@@ -51,9 +51,35 @@ inline bool candidate(Tape& t, int recipe, ref::Pos& p)
         p.b[ref::SQ(kingside ? 7 : 0, R(0))] = A('r');
         (w ? (kingside ? p.cK : p.cQ) : (kingside ? p.ck : p.cq)) = true;
     }
+    int dk = -1;
+    if (recipe == 5)
+    {
+        // en passant with a bishop or queen behind the captured pawn on a diagonal that leads to the defender's king
+        int f = int(t.choose(8)), g = f + (t.flag() ? 1 : -1);
+        if (g < 0 || g > 7) return false;
+        int a = ref::SQ(f, R(4)), d = ref::SQ(g, R(4)), e5 = ref::SQ(g, R(5)), e6 = ref::SQ(g, R(6));
+        int df = t.flag() ? 1 : -1, dr = t.flag() ? 1 : -1;
+        std::vector<int> fwd, bwd;
+        for (int ff = g + df, rr = R(4) + dr; ref::on_board(ff, rr); ff += df, rr += dr) fwd.push_back(ref::SQ(ff, rr));
+        for (int ff = g - df, rr = R(4) - dr; ref::on_board(ff, rr); ff -= df, rr -= dr) bwd.push_back(ref::SQ(ff, rr));
+        if (fwd.empty() || bwd.empty()) return false;
+        dk = fwd[t.choose(uint32_t(fwd.size()))];
+        int sl = bwd[t.choose(uint32_t(bwd.size()))];
+        if (dk == a || sl == a || dk == e5 || dk == e6 || sl == e5 || sl == e6) return false;
+        p.b[a] = A('p');
+        p.b[d] = D('p');
+        p.ep = e5;
+        p.b[dk] = D('k');
+        p.b[sl] = A(t.chance(1, 3) ? 'q' : 'b');
+        p.b[e5] = p.b[e6] = '#';
+        // keep the diagonal open
+        for (int sq : fwd)
+            if (p.b[sq] == '.' && sq != dk) p.b[sq] = '#';
+        for (int sq : bwd)
+            if (p.b[sq] == '.' && sq != sl) p.b[sq] = '#';
+    }
     // the defender's king: mostly on the edge
-    int dk;
-    for (int guard = 0;; ++guard)
+    for (int guard = 0; dk < 0; ++guard)
     {
         int f = int(t.choose(8)), r = int(t.choose(8));
         if (t.chance(3, 4)) (t.flag() ? f : r) = t.flag() ? 0 : 7;
@@ -63,11 +89,15 @@ inline bool candidate(Tape& t, int recipe, ref::Pos& p)
             if (t.flag()) f = t.flag() ? 3 : 5;
             else r = R(0);
         }
-        dk = ref::SQ(f, r);
-        if (p.b[dk] == '.' && (ak < 0 || cheb(dk, ak) >= 2)) break;
-        if (guard > 20) return false;
+        int cand = ref::SQ(f, r);
+        if (p.b[cand] == '.' && (ak < 0 || cheb(cand, ak) >= 2))
+        {
+            dk = cand;
+            p.b[dk] = D('k');
+        }
+        else if (guard > 20)
+            return false;
     }
-    p.b[dk] = D('k');
     if (recipe == 0)
     {
         int f = int(t.choose(8)), g = f + (t.flag() ? 1 : -1);
@@ -152,6 +182,10 @@ inline bool candidate(Tape& t, int recipe, ref::Pos& p)
 inline void classify(const ref::Pos& p, Pool& P, size_t cap)
 {
     int dk = ref::king_sq(p, !p.wtm);
+    // kinds of every mating move; a position enters the pool of a kind only if EVERY mate in one is of that kind, so that
+    // an engine which mishandles the special move cannot escape into an ordinary mate
+    std::vector<std::pair<std::string, unsigned>> mates;
+    unsigned common = ~0u;
     for (const ref::Move& m : ref::legal_moves(p))
     {
         ref::Pos q = ref::make(p, m);
@@ -161,18 +195,29 @@ inline void classify(const ref::Pos& p, Pool& P, size_t cap)
         bool ep = ref::is_ep(p, m), castle = ref::is_castle(p, m);
         bool direct = !castle && gen::piece_attacks(q, m.to, dk);
         int checkers = ref::count_checkers(q, q.wtm);
-        auto add = [&](Kind k) {
-            if (P.k[k].size() < cap) P.k[k].push_back(Entry{p, m.uci()});
-        };
-        if (ep) add(EP);
-        if (ep && (!direct || checkers >= 2)) add(EP_DISCOVERED);
-        if (m.promo == 'q') add(PROMO_Q);
-        if (m.promo && m.promo != 'q') add(UNDERPROMO);
-        if (m.promo == 'n') add(KNIGHT_PROMO);
-        if (castle) add(CASTLE);
-        if (!ep && !castle && !direct) add(DISCOVERED);
-        if (checkers >= 2) add(DOUBLE_CHECK);
+        unsigned kinds = 0;
+        if (ep) kinds |= 1u << EP;
+        if (ep && (!direct || checkers >= 2)) kinds |= 1u << EP_DISCOVERED;
+        if (ep)
+        {
+            // the third square an en-passant capture vacates: does the check run through it?
+            ref::Pos back = q;
+            int capSq = ref::SQ(ref::FL(m.to), ref::RK(m.from));
+            back.b[capSq] = p.b[capSq];
+            if (!ref::in_check(back, back.wtm)) kinds |= 1u << EP_THROUGH_CAPTURED_SQUARE;
+        }
+        if (m.promo == 'q') kinds |= 1u << PROMO_Q;
+        if (m.promo && m.promo != 'q') kinds |= 1u << UNDERPROMO;
+        if (m.promo == 'n') kinds |= 1u << KNIGHT_PROMO;
+        if (castle) kinds |= 1u << CASTLE;
+        if (!ep && !castle && !direct) kinds |= 1u << DISCOVERED;
+        if (checkers >= 2) kinds |= 1u << DOUBLE_CHECK;
+        mates.push_back({m.uci(), kinds});
+        common &= kinds;
     }
+    if (mates.empty()) return;
+    for (int k = 0; k < NKIND; ++k)
+        if ((common >> k & 1) && P.k[k].size() < cap) P.k[k].push_back(Entry{p, mates[0].first});
 }
 
 inline Pool build(uint64_t seed, long maxTries, size_t cap)
@@ -187,7 +232,7 @@ inline Pool build(uint64_t seed, long maxTries, size_t cap)
     }
     Tape t(words);
     t.extend = true;
-    static const int RECIPE_FOR[NKIND] = {0, 0, 1, 1, 1, 2, 3, 3};
+    static const int RECIPE_FOR[NKIND] = {0, 0, 5, 1, 1, 1, 2, 3, 3};
     while (P.tries < maxTries)
     {
         // work on the kinds that are still short
